@@ -47,6 +47,9 @@ func (dsp *DataStreamProcessor) removeProjectorsBasis() {
 
 // SetProjectorsBasis sets .projectors and .basis to the arguments, returns an error if the sizes are not right
 func (dsp *DataStreamProcessor) SetProjectorsBasis(projectors *mat.Dense, basis *mat.Dense, modelDescription string) error {
+	if dsp.EdgeMulti && dsp.EMTState.mode == EMTRecordsVariableLength {
+		return fmt.Errorf("projectors cannot be used while the edge-multi trigger makes variable-length records")
+	}
 	rows, cols := projectors.Dims()
 	nbases := rows
 	if dsp.NSamples != cols {
@@ -139,6 +142,9 @@ func (dsp *DataStreamProcessor) triggerStateAcceptable(state TriggerState) error
 	trial.npre = int32(dsp.NPresamples)
 	if state.EdgeMulti && !trial.valid() {
 		return fmt.Errorf("dsp.EMTState in invalid")
+	}
+	if state.EdgeMulti && trial.mode == EMTRecordsVariableLength && dsp.HasProjectors() {
+		return fmt.Errorf("the edge-multi trigger cannot make variable-length records on a channel with projectors")
 	}
 	return nil
 }
